@@ -173,6 +173,12 @@ def gen_spec(r: random.Random) -> Dict[str, Any]:
                       "refs": [rf], "image": None, "side_form": form})
         outputs[sn] = {"out.txt": "side", "out.stdout": "side"}
         sides.append(sn)
+    # ---- executables spelled through a %(variable)s (drawn LAST so that everything above is unchanged): what runs,
+    #      and therefore what the statement speaks about, is the text after the variable got its value (= c["exe"])
+    for k, c in enumerate(comps):
+        if r.random() < (0.4 if c["name"] == tname else 0.25):
+            c["exe_via"] = r.choice(["global", "component"])
+            c["exe_var"] = "exe_%d" % k
     spec = {"comps": comps, "target": tname, "chain": chain, "sides": sides, "variables": variables, "data": data,
             "outputs": outputs, "where": "A", "mtime": 1.5e9, "has_dir_ref": has_dir_ref}
     spec["klass"] = "L%d:dir%d:img%s:argdata%d" % (
@@ -206,6 +212,12 @@ def render(spec: Dict[str, Any]) -> Dict[str, Any]:
                 toks.append("%%(%s)s" % t[1])
         d: Dict[str, Any] = {"name": c["name"], "stage": c["stage"],
                              "command": {"executable": c["exe"], "arguments": " ".join(toks)}}
+        if c.get("exe_via"):
+            d["command"]["executable"] = "%%(%s)s" % c["exe_var"]
+            if c["exe_via"] == "global":
+                doc["variables"]["default"]["global"][c["exe_var"]] = c["exe"]
+            else:
+                d["variables"] = {c["exe_var"]: c["exe"]}
         uniq = []
         for x in rs:
             if x not in uniq:
@@ -275,7 +287,8 @@ def edits(spec: Dict[str, Any], r: random.Random) -> List[Dict[str, Any]]:
     s = copy.deepcopy(spec)
     tt = _target(s)
     tt["exe"] = r.choice([e for e in EXES if e != tt["exe"]])
-    add("R1-executable", s, DIFFER, NOCLAIM, "%s -> %s" % (t["exe"], tt["exe"]))
+    add("R1-executable", s, DIFFER, NOCLAIM, "%s -> %s%s" % (t["exe"], tt["exe"], (
+        " (value of the %s variable the executable is spelled through)" % t["exe_via"]) if t.get("exe_via") else ""))
 
     s = copy.deepcopy(spec)
     tt = _target(s)
@@ -452,4 +465,15 @@ def edits(spec: Dict[str, Any], r: random.Random) -> List[Dict[str, Any]]:
     s = copy.deepcopy(spec)
     s["outputs"][last].pop("out.txt")
     add("N2-missing-producer-output", s, NONE, NOCLAIM, last + "/out.txt")
+    # ---------------- (drawn last: the edits above are the same as before this one existed)
+    # the same executable spelled the other way (literal <-> through a variable): the same executable runs
+    s = copy.deepcopy(spec)
+    tt = _target(s)
+    if tt.get("exe_via"):
+        was = tt.pop("exe_via")
+        add("X3-executable-spelling", s, EQUAL, NOCLAIM, "through a %s variable -> literal" % was)
+    else:
+        tt["exe_via"] = r.choice(["global", "component"])
+        tt["exe_var"] = "exe_spelled"
+        add("X3-executable-spelling", s, EQUAL, NOCLAIM, "literal -> through a %s variable" % tt["exe_via"])
     return out
